@@ -10,7 +10,7 @@
 # statics it writes / reads, directly or through callees whose bodies are in the dump.  The access-path analysis is the one of
 # harness/c16_objmodel.py (imported, not copied); the dump is made with -DRecInt=Givaro_RecInt so that clang's single
 # -ast-dump-filter=Givaro keeps both namespaces.
-# Output: JSON (cached by source hash) and coq/C16/RaceFreeGen.v (consumed by coq/C16/RaceFreeValues.v).
+# Output: JSON (cached by source hash) and coq/C16/gen/RaceFreeGen.v (consumed by coq/C16/RaceFreeValues.v).
 import json, os, re, sys, time, subprocess
 
 HERE = os.path.dirname(os.path.abspath(__file__))
